@@ -64,3 +64,29 @@ def x02(ctx):
     rnd = ctx.path("cases-b.ndjson")
     vlib.harness(["gen", "proc", ctx.seed, 4000 if q else 60000, rnd])
     vlib.exec_and_judge(ctx, "proc", rnd, "Trace_Proc", "B", sample_keys=keys)
+
+
+@ext("X03", "post", "Trace_Post", "task inputs and postprocessing pipeline: label shifting, clip_length, token masking, on_mark / switch_on_mark")
+def x03(ctx):
+    q = ctx.quick()
+    ctx.rule = ("MC: small-step interpreter (one action per configuration node; masking replaces any subset of the maskable positions) for "
+                "all trees of depth 1/2 over {none, clip, mask, mask with probability 0} x 4 mark sets x token sequences up to length 5/6 x "
+                "clip lengths {0,2,4} x 0..1 prefix and suffix tokens: executed primitives = Flat(cfg), the abstraction (length, maskable "
+                "positions, certain panic) used by the trace validator is sound, prefix/suffix tokens are never masked, clip bounds the "
+                "length; A: the same trees on the real postprocessing() for generation / conditional generation / sequence classification "
+                "/ classification items, and all task-input cases (texts up to 2 characters x masked prefix x separator x 0..2 prefix and "
+                "suffix tokens) on the real train_task(); B: random. non-trivial = at least one primitive on >=2 tokens / >=3 tokens")
+    ctx.assumptions = ["the random generator is not modelled (switch draw read back from the seed; masking = any subset of maskable positions)",
+                       "the byte tokenizer supplies the token sequences of the task functions (it is the subject of C01)"]
+    cfg = ("CONSTANTS MaxN = %d Ls = {0, 2, 4} Depth = %d\nSPECIFICATION Spec\nINVARIANTS RefinesFlat AbsSound NeverGrows ClipBounds "
+           "PrefixSuffixProtected OnlyMaskToken\nPROPERTY Terminates\nCHECK_DEADLOCK FALSE\n" % ((5, 1) if q else (6, 2)))
+    vlib.mc(ctx, "MC_Post", cfg, name="MC_Post", workers=8, timeout=3000)
+    gcfg = "CONSTANTS MaxN = %d Depth = %d\nINIT Init\nNEXT Next\nCHECK_DEADLOCK FALSE\n" % ((5, 1) if q else (6, 2))
+    keys = ["kind", "cfg", "marks", "n", "L", "pfx", "sfx", "task", "i", "t", "out"]
+    for fam in ("post", "task"):
+        cases, n = vlib.tlc_generate(ctx, "Gen_Post", gcfg, "cases-a-%s.ndjson" % fam, env={"FAMILY": fam})
+        vlib.exec_and_judge(ctx, "post", cases, "Trace_Post", "A-" + fam, sample_keys=keys)
+    ctx.exhaustive = True
+    rnd = ctx.path("cases-b.ndjson")
+    vlib.harness(["gen", "post", ctx.seed, 4000 if q else 60000, rnd])
+    vlib.exec_and_judge(ctx, "post", rnd, "Trace_Post", "B", sample_keys=keys)
